@@ -12,8 +12,8 @@ CHECKS = {
          "Generated search over finite programs of the writer API (chains, zero-column sets, drops, errors after rows, shape-contradicting rows) embedded in command sequences under generated read/write chunkings; the decoded response must equal the abstract interpretation of the program, with the more-results flag on every unit but the last, and a sentinel PING after every command must get exactly one OK with sequence id 1.",
          "Trusts the reference response state machine (written from the protocol documentation) and the program interpreter; documented misuse (dropping a fresh writer, dropping a RowWriter mid-row) is not generated."),
  "C04": ("exploration", "enumerated boundary sizes k*(2^24-1)+d x assemblies plus proptest-generated sizes; round-trip oracle through an independent packet framer and value decoder",
-         "Every listed size around 1x and 2x (2^24-1) is realised by several assemblies (text row with cell boundaries before/at/after the limit, binary row, ERR message, huge column name) and the raw output is re-framed by an independent splitter/reassembler: the message must arrive as one logical message of exactly the intended bytes. Thousands of generated small/medium sizes cover the length-encoding classes.",
-         "Sizes beyond ~2*(2^24-1) are not explored; trusts the reference framer (its reassembly rule is the documented one)."),
+         "Every listed size around 1x and 2x (2^24-1) is realised by several assemblies (text row with cell boundaries before/at/after the limit, binary row, ERR message, huge column name), generated rows of 17-70 MB are laid out against the packet boundaries (several long cells, cells of 3 packets, small cells straddling a boundary), one case in four runs on a transport that fails once and recovers (bytes handed over must stay a prefix of the fault-free output when a packet was cut) and the raw output is re-framed by an independent splitter/reassembler: the message must arrive as one logical message of exactly the intended bytes. Thousands of generated small/medium sizes cover the length-encoding classes.",
+         "Messages beyond ~4*(2^24-1) bytes are not explored; trusts the reference framer (its reassembly rule is the documented one)."),
  "C05": ("exploration", "proptest-generated conversations with generated request sequence ids and long responses; invariant oracle over every physical packet",
          "Every packet of every reply is checked against last_request_id+1+i mod 256, for request ids over 0-255 (255 favoured), responses of up to ~1100 packets and enumerated multi-fragment requests.",
          "Requests whose own fragments wrap past id 255 are outside the domain (C20 covers them)."),
@@ -107,6 +107,7 @@ def main():
         }],
         "checks": checks,
         "not_applicable": na,
+        "not_applicable": [],
         "notes": "All checks: ./check <id> quick|thorough|replay <file>. Exit 0 held / 1 VIOLATION / 2 infrastructure (never a violation). Known findings: KNOWN_FINDINGS.txt.",
     }
     if not na:
